@@ -11,7 +11,7 @@ from vx.symx import SymInt
 symstr.install()
 
 from xdsl.context import Context  # noqa: E402
-from xdsl.dialects import arith, builtin, cf, func, memref, scf, test  # noqa: E402
+from xdsl.dialects import arith, builtin, cf, func, llvm, memref, scf, test  # noqa: E402
 from xdsl.dialects.builtin import IntAttr, IntegerAttr, IntegerType, ModuleOp  # noqa: E402
 from xdsl.ir import Attribute, Data, ParametrizedAttribute  # noqa: E402
 from xdsl.parser import Parser  # noqa: E402
@@ -30,7 +30,7 @@ _diagnostic.Diagnostic.raise_exception = _raise_plain
 
 LEVEL = "other"
 EXPLANATION = (
-    "A catalogue of verified modules made of operations of the core dialects that have a custom (declarative or hand-written) "
+    "A catalogue of verified modules made of operations of arith, cf, func, memref, scf, builtin and llvm that have a custom (declarative or hand-written) "
     "assembly format - arith (constants of every integer kind, binary ops with overflow flags, comparisons with every "
     "predicate, casts, select, fast-math flags), cf (br/cond_br with block arguments), func (func/call/return, private "
     "declarations), memref (alloc with dynamic sizes and alignment, load/store/dim/cast/subview-free subset), scf (for with "
@@ -41,9 +41,9 @@ EXPLANATION = (
     "payloads as the original (properties equal to their declared default count as absent); printing the parsed module in "
     "custom form gives the same text; and the generic printing parses to the same module as the custom printing."
 )
-FUNCTIONS = ["xdsl.irdl.declarative_assembly_format.FormatProgram.print / parse and its directives", "print/parse overrides of arith, cf, func, memref, scf operations", "Parser.parse_operation (custom branch)", "Printer.print_op"]
+FUNCTIONS = ["xdsl.irdl.declarative_assembly_format.FormatProgram.print / parse and its directives", "print/parse overrides of arith, cf, func, memref, scf, llvm operations", "Parser.parse_operation (custom branch)", "Printer.print_op"]
 ASSUMPTIONS = ["vx/shim_re.py, vx/symstr.py agree with CPython (vx.selftest)"]
-OUTSIDE = ["dialects other than arith, cf, func, memref, scf, builtin", "the repository's .mlir corpus (concrete: no symbolic dimension)", "float payloads (repr is C code)", "operations not in the catalogue"]
+OUTSIDE = ["dialects other than arith, cf, func, memref, scf, builtin, llvm", "the repository's .mlir corpus (concrete: no symbolic dimension)", "float payloads (repr is C code)", "operations not in the catalogue"]
 STUBS = ["Diagnostic.raise_exception re-raises the error without rendering the module into its notes", "output stream: vx.symstr.SymStream", "Printer/Parser name tables: list-backed dictionaries"]
 
 # generic-form modules; integer literals 100..109 in attribute position are markers replaced by symbolic payloads of the attribute's type
@@ -276,6 +276,111 @@ MODULES = {
 %k = "arith.constant"() <{value = dense<[100, 101]> : tensor<2xi8>}> : () -> tensor<2xi8>
 "test.op"(%0, %1, %2, %3, %4, %7, %8, %9, %k) : (i32, i1, i32, i32, vector<4xi32>, i32, i32, i32, tensor<2xi8>) -> ()
 """,
+    "llvm_arith": """
+%a, %b = "test.op"() : () -> (i32, i32)
+%0 = "llvm.add"(%a, %b) <{overflowFlags = 3 : i32}> : (i32, i32) -> i32
+%1 = "llvm.sub"(%a, %b) <{overflowFlags = 0 : i32}> : (i32, i32) -> i32
+%2 = "llvm.mul"(%a, %b) <{overflowFlags = 1 : i32}> : (i32, i32) -> i32
+%3 = "llvm.udiv"(%a, %b) <{isExact}> : (i32, i32) -> i32
+%4 = "llvm.sdiv"(%a, %b) : (i32, i32) -> i32
+%5 = "llvm.or"(%a, %b) <{isDisjoint}> : (i32, i32) -> i32
+%6 = "llvm.shl"(%a, %b) <{overflowFlags = 2 : i32}> : (i32, i32) -> i32
+%7 = "llvm.lshr"(%a, %b) <{isExact}> : (i32, i32) -> i32
+%8 = "llvm.trunc"(%a) <{overflowFlags = #llvm.overflow<nsw>}> : (i32) -> i16
+%9 = "llvm.zext"(%a) <{nonNeg}> : (i32) -> i64
+%10 = "llvm.sext"(%a) : (i32) -> i64
+%11 = "llvm.icmp"(%a, %b) <{predicate = 2 : i64}> : (i32, i32) -> i1
+%12 = "llvm.bitcast"(%a) : (i32) -> f32
+"test.op"(%0, %1, %2, %3, %4, %5, %6, %7, %8, %9, %10, %11, %12) : (i32, i32, i32, i32, i32, i32, i32, i32, i16, i64, i64, i1, f32) -> ()
+""",
+    "llvm_const": """
+%c1 = "llvm.mlir.constant"() <{value = false}> : () -> i1
+%c2 = "llvm.mlir.constant"() <{value = 100 : i64}> : () -> i64
+%c3 = "llvm.mlir.constant"() <{value = 101 : i32}> : () -> i32
+%c4 = "llvm.mlir.constant"() <{value = 102 : i8}> : () -> i8
+%z = "llvm.mlir.zero"() : () -> !llvm.ptr
+%u = "llvm.mlir.undef"() : () -> !llvm.struct<(i32)>
+"test.op"(%c1, %c2, %c3, %c4, %z, %u) : (i1, i64, i32, i8, !llvm.ptr, !llvm.struct<(i32)>) -> ()
+""",
+    "llvm_mem": """
+%n = "test.op"() : () -> i64
+%v = "test.op"() : () -> i32
+%p = "llvm.alloca"(%n) <{elem_type = index, alignment = 32 : i64}> : (i64) -> !llvm.ptr
+%q = "llvm.alloca"(%n) <{elem_type = i32}> : (i64) -> !llvm.ptr
+%g = "llvm.getelementptr"(%p, %n) <{rawConstantIndices = array<i32: -2147483648>, elem_type = i32, noWrapFlags = 0 : i32}> : (!llvm.ptr, i64) -> !llvm.ptr
+%gi = "llvm.getelementptr"(%p, %n) <{rawConstantIndices = array<i32: -2147483648>, elem_type = i32, noWrapFlags = 0 : i32, inbounds}> : (!llvm.ptr, i64) -> !llvm.ptr
+%gm = "llvm.getelementptr"(%p, %n) <{rawConstantIndices = array<i32: 100, -2147483648, 1>, elem_type = !llvm.array<4 x !llvm.struct<(i32, i32, i32)>>, noWrapFlags = 0 : i32}> : (!llvm.ptr, i64) -> !llvm.ptr
+%i = "llvm.ptrtoint"(%p) : (!llvm.ptr) -> i64
+%r = "llvm.inttoptr"(%i) : (i64) -> !llvm.ptr
+"test.op"(%q, %g, %gi, %gm, %r) : (!llvm.ptr, !llvm.ptr, !llvm.ptr, !llvm.ptr, !llvm.ptr) -> ()
+""",
+    "llvm_ldst": """
+%n = "test.op"() : () -> i64
+%v = "test.op"() : () -> i32
+%p = "llvm.alloca"(%n) <{elem_type = index, alignment = 32 : i64}> : (i64) -> !llvm.ptr
+%l0 = "llvm.load"(%p) <{ordering = 0 : i64}> : (!llvm.ptr) -> i32
+%l1 = "llvm.load"(%p) <{ordering = 0 : i64, alignment = 16 : i64}> : (!llvm.ptr) -> index
+%l2 = "llvm.load"(%p) <{ordering = 1 : i64, alignment = 32 : i64}> : (!llvm.ptr) -> index
+"llvm.store"(%v, %p) <{ordering = 0 : i64}> : (i32, !llvm.ptr) -> ()
+"llvm.store"(%v, %p) <{ordering = 0 : i64, alignment = 8 : i64}> : (i32, !llvm.ptr) -> ()
+"llvm.store"(%v, %p) <{ordering = 0 : i64, alignment = 16 : i64, volatile_, nontemporal}> : (i32, !llvm.ptr) -> ()
+"test.op"(%l0, %l1, %l2) : (i32, index, index) -> ()
+""",
+    "llvm_agg": """
+%v = "test.op"() : () -> i32
+%agg = "test.op"() : () -> !llvm.struct<(i32, !llvm.array<3 x i32>)>
+%e0 = "llvm.extractvalue"(%agg) <{position = array<i64: 0>}> : (!llvm.struct<(i32, !llvm.array<3 x i32>)>) -> i32
+%e1 = "llvm.extractvalue"(%agg) <{position = array<i64: 1, 2>}> : (!llvm.struct<(i32, !llvm.array<3 x i32>)>) -> i32
+%i0 = "llvm.insertvalue"(%agg, %v) <{position = array<i64: 0>}> : (!llvm.struct<(i32, !llvm.array<3 x i32>)>, i32) -> !llvm.struct<(i32, !llvm.array<3 x i32>)>
+%i1 = "llvm.insertvalue"(%agg, %v) <{position = array<i64: 1, 0>}> : (!llvm.struct<(i32, !llvm.array<3 x i32>)>, i32) -> !llvm.struct<(i32, !llvm.array<3 x i32>)>
+%vec1, %vec2 = "test.op"() : () -> (vector<4xf32>, vector<4xf32>)
+%s = "llvm.shufflevector"(%vec1, %vec2) <{mask = array<i32: 0, 5>}> : (vector<4xf32>, vector<4xf32>) -> vector<2xf32>
+"test.op"(%e0, %e1, %i0, %i1, %s) : (i32, i32, !llvm.struct<(i32, !llvm.array<3 x i32>)>, !llvm.struct<(i32, !llvm.array<3 x i32>)>, vector<2xf32>) -> ()
+""",
+    "llvm_func": """
+"llvm.func"() <{unnamed_addr = 0 : i64, sym_name = "external_func", function_type = !llvm.func<void (i64)>, CConv = #llvm.cconv<ccc>, linkage = #llvm.linkage<"external">, visibility_ = 0 : i64}> ({
+}) : () -> ()
+"llvm.func"() <{arg_attrs = [{llvm.noundef}], res_attrs = [{llvm.noundef}], unnamed_addr = 0 : i64, sym_name = "decl_attrs", function_type = !llvm.func<i32 (i64)>, CConv = #llvm.cconv<ccc>, linkage = #llvm.linkage<"external">, visibility_ = 0 : i64}> ({
+}) : () -> ()
+"llvm.func"() <{arg_attrs = [{llvm.noundef}, {}], res_attrs = [{llvm.noundef}], unnamed_addr = 0 : i64, sym_name = "add", function_type = !llvm.func<i32 (i32, i32)>, CConv = #llvm.cconv<ccc>, linkage = #llvm.linkage<"external">, visibility_ = 0 : i64}> ({
+^bb0(%arg0: i32, %arg1: i32):
+  "llvm.return"(%arg0) : (i32) -> ()
+}) {hello = "world"} : () -> ()
+"llvm.func"() <{unnamed_addr = 0 : i64, sym_name = "internal_func", function_type = !llvm.func<void ()>, CConv = #llvm.cconv<ccc>, linkage = #llvm.linkage<"internal">, visibility_ = 0 : i64}> ({
+  "llvm.return"() : () -> ()
+}) : () -> ()
+"llvm.func"() <{unnamed_addr = 0 : i64, sym_name = "variadic_func", function_type = !llvm.func<void (i32, ...)>, CConv = #llvm.cconv<ccc>, linkage = #llvm.linkage<"external">, visibility_ = 0 : i64}> ({
+^bb0(%arg0_1: i32):
+  "llvm.return"() : () -> ()
+}) : () -> ()
+"llvm.func"() <{unnamed_addr = 0 : i64, sym_name = "variadic_decl", function_type = !llvm.func<void (i32, ...)>, CConv = #llvm.cconv<ccc>, linkage = #llvm.linkage<"external">, visibility_ = 0 : i64}> ({
+}) : () -> ()
+"llvm.func"() <{unnamed_addr = 0 : i64, sym_name = "variadic_with_return", function_type = !llvm.func<i64 (i32, ...)>, CConv = #llvm.cconv<ccc>, linkage = #llvm.linkage<"external">, visibility_ = 0 : i64}> ({
+}) : () -> ()
+"llvm.func"() <{unnamed_addr = 0 : i64, sym_name = "caller", function_type = !llvm.func<void (i32, !llvm.ptr, i64)>, CConv = #llvm.cconv<ccc>, linkage = #llvm.linkage<"external">, visibility_ = 0 : i64}> ({
+^bb0(%arg0_2: i32, %fptr: !llvm.ptr, %x: i64):
+  "llvm.call"(%x) <{fastmathFlags = #llvm.fastmath<none>, CConv = #llvm.cconv<ccc>, TailCallKind = #llvm.tailcallkind<none>, op_bundle_sizes = array<i32>, operandSegmentSizes = array<i32: 1, 0>, callee = @external_func}> : (i64) -> ()
+  %0 = "llvm.call"(%fptr, %arg0_2) <{fastmathFlags = #llvm.fastmath<none>, CConv = #llvm.cconv<ccc>, TailCallKind = #llvm.tailcallkind<none>, op_bundle_sizes = array<i32>, operandSegmentSizes = array<i32: 2, 0>}> : (!llvm.ptr, i32) -> i32
+  "llvm.call"(%x) <{fastmathFlags = #llvm.fastmath<none>, CConv = #llvm.cconv<ccc>, TailCallKind = #llvm.tailcallkind<tail>, op_bundle_sizes = array<i32>, operandSegmentSizes = array<i32: 1, 0>, callee = @external_func}> : (i64) -> ()
+  "llvm.call"(%x) <{fastmathFlags = #llvm.fastmath<none>, CConv = #llvm.cconv<fastcc>, TailCallKind = #llvm.tailcallkind<none>, op_bundle_sizes = array<i32>, operandSegmentSizes = array<i32: 1, 0>, callee = @external_func}> : (i64) -> ()
+  %1 = "llvm.call"(%arg0_2) <{fastmathFlags = #llvm.fastmath<none>, CConv = #llvm.cconv<ccc>, TailCallKind = #llvm.tailcallkind<none>, op_bundle_sizes = array<i32>, operandSegmentSizes = array<i32: 1, 0>, callee = @variadic_with_return, var_callee_type = !llvm.func<i64 (i32, ...)>}> : (i32) -> i64
+  "llvm.return"() : () -> ()
+}) : () -> ()
+""",
+    "llvm_global": """
+"llvm.mlir.global"() <{global_type = !llvm.array<5 x i8>, sym_name = "str0", linkage = #llvm.linkage<"internal">, addr_space = 0 : i32, constant, value = "Hello"}> ({
+}) : () -> ()
+"llvm.mlir.global"() <{global_type = i32, sym_name = "x", linkage = #llvm.linkage<"external">, addr_space = 0 : i32}> ({
+}) : () -> ()
+"llvm.mlir.global"() <{global_type = i32, sym_name = "y", linkage = #llvm.linkage<"private">, addr_space = 0 : i32, value = 100 : i32}> ({
+}) : () -> ()
+"llvm.mlir.global"() <{global_type = i32, sym_name = "tl", linkage = #llvm.linkage<"external">, addr_space = 0 : i32, thread_local_}> ({
+}) : () -> ()
+"llvm.mlir.global"() <{global_type = i32, sym_name = "u", linkage = #llvm.linkage<"external">, addr_space = 0 : i32, unnamed_addr = 2 : i64}> ({
+}) : () -> ()
+%a = "llvm.mlir.addressof"() <{global_name = @y}> : () -> !llvm.ptr
+"test.op"(%a) : (!llvm.ptr) -> ()
+""",
 }
 
 
@@ -455,7 +560,7 @@ def gen_module(ob, src):
 
 def ctx():
     c = Context()
-    for d in (builtin.Builtin, arith.Arith, cf.Cf, func.Func, memref.MemRef, scf.Scf, test.Test, VX):
+    for d in (builtin.Builtin, arith.Arith, cf.Cf, func.Func, memref.MemRef, scf.Scf, llvm.LLVM, test.Test, VX):
         c.load_dialect(d)
     return c
 
@@ -710,7 +815,7 @@ def build_module(ob, src):
 # discardable attributes named like a property that the tree is known to lose in custom form (known_findings.json); the
 # general variants leave these out and a dedicated obligation per entry keeps reporting them
 KNOWN_CLASH = {("*", "operandSegmentSizes"), ("func.func", "sym_name"), ("func.func", "function_type"), ("func.func", "sym_visibility"), ("func.func", "arg_attrs"),
-               ("memref.alloc", "alignment"), ("memref.alloca", "alignment")}
+               ("memref.alloc", "alignment"), ("memref.alloca", "alignment"), ("llvm.*", "*")}
 
 
 def add_discardable(m, src, only=None):
@@ -726,7 +831,7 @@ def add_discardable(m, src, only=None):
         if only is None:
             op.attributes["vx.extra"] = shared
         for k in list(op.properties):
-            known = (op.name, k) in KNOWN_CLASH or ("*", k) in KNOWN_CLASH
+            known = (op.name, k) in KNOWN_CLASH or ("*", k) in KNOWN_CLASH or (op.name.startswith("llvm.") and ("llvm.*", "*") in KNOWN_CLASH)
             if k in op.attributes or (known if only is None else [op.name, k] not in [list(x) for x in only]):
                 continue
             op.attributes[k] = StringAttr("clash")
@@ -785,10 +890,10 @@ def harness(ob, concrete=None):
     return h
 
 
-SYM_NAMES = {"func": ("ext",), "func2": ("pub",), "global": ("g",), "module": ("inner",), "cf": ("f",)}
+SYM_NAMES = {"llvm_func": ("external_func",), "llvm_global": ("y",), "func": ("ext",), "func2": ("pub",), "global": ("g",), "module": ("inner",), "cf": ("f",)}
 # number of integer payload sites per module (see Src)
 FOCUS = {"typed": 3, "dflt_group": 2, "dflt_dict": 2, "dense": 5, "switch": 3, "func2": 2, "arith_const_index_i8": 2, "arith_const_i1": 2, "module": 2, "func_decl_attrs": 2, "global": 2, "arith2": 2,
-         "scf": 2, "subview": 2, "arith_const_i32": 1}
+         "scf": 2, "subview": 2, "arith_const_i32": 1, "llvm_const": 3, "llvm_mem": 2, "llvm_ldst": 5}
 GENS = ["dflt_bare", "dflt_group", "dflt_dict", "dense", "sym", "str", "typed", "var", "unit", "same"]
 
 
@@ -817,6 +922,7 @@ def obligations(tier):
     obs.append({"id": "C05/clash_known/segment_sizes", "module": "cf", "clash_only": [["cf.cond_br", "operandSegmentSizes"]], "weight": 2})
     obs.append({"id": "C05/clash_known/func", "module": "func", "clash_only": [["func.func", n] for n in ("sym_name", "function_type", "sym_visibility", "arg_attrs")], "weight": 2})
     obs.append({"id": "C05/clash_known/alignment", "module": "memref", "clash_only": [["memref.alloc", "alignment"]], "weight": 2})
+    obs.append({"id": "C05/clash_known/llvm", "module": "llvm_agg", "clash_only": [["llvm.extractvalue", "position"]], "weight": 2})
     obs.append({"id": "C05/cmp1/pred", "module": "cmp1", "sym_pred": True, "sym_enum": True, "weight": 8})
     obs.append({"id": "C05/arith_float/flags", "module": "arith_float", "sym_enum": True, "weight": 8})
     obs.append({"id": "C05/arith_bin/flags", "module": "arith_bin", "sym_enum": True, "weight": 5})
